@@ -24,30 +24,31 @@ import (
 )
 
 type Scenario struct {
-	RunSeed   uint64           `json:"run_seed"`
-	Strategy  int              `json:"strategy"`
-	PCTDepth  int              `json:"pct_depth,omitempty"`
-	Kind      string           `json:"kind"`    // axfr | ixfr-inc | ixfr-axfr | ixfr-uptodate
-	Records   int              `json:"records"` // records besides the SOAs (axfr / ixfr-axfr), or per difference section (ixfr-inc)
-	Seqs      int              `json:"seqs,omitempty"`
-	Cuts      []int            `json:"cuts,omitempty"` // envelope boundaries: indices into the record sequence after which a new envelope starts
-	Sender    string           `json:"sender"`         // out (real Server + Transfer.Out) | scripted
-	Alg       string           `json:"alg,omitempty"`  // TSIG algorithm ("" = no TSIG)
-	ClientKey bool             `json:"client_key,omitempty"`
-	ServerKey bool             `json:"server_key,omitempty"`
-	Fudge     int              `json:"fudge,omitempty"`
-	Ops       []common.FrameOp `json:"ops,omitempty"`
-	CutAt     int              `json:"cut_at,omitempty"` // link closes the stream towards the client after this many octets
-	CutRST    bool             `json:"cut_rst,omitempty"`
-	SegMode   int              `json:"segmode,omitempty"`
-	ShortRead int              `json:"shortread,omitempty"`
-	DelayMs   int              `json:"delay_ms,omitempty"`
-	TimeoutMs int              `json:"read_timeout_ms"`
-	BadFirst  bool             `json:"bad_first,omitempty"` // scripted: the sequence does not start with an SOA
-	Rcode     int              `json:"rcode,omitempty"`     // scripted: envelope RcodeAt carries this RCODE
-	RcodeAt   int              `json:"rcode_at,omitempty"`
-	WrongID   int              `json:"wrong_id_at,omitempty"` // scripted: envelope index+1 that carries another ID (0 = none)
-	Trailing  bool             `json:"trailing,omitempty"`    // scripted: one more envelope after the closing one
+	RunSeed    uint64           `json:"run_seed"`
+	Strategy   int              `json:"strategy"`
+	PCTDepth   int              `json:"pct_depth,omitempty"`
+	Kind       string           `json:"kind"`    // axfr | ixfr-inc | ixfr-axfr | ixfr-uptodate
+	Records    int              `json:"records"` // records besides the SOAs (axfr / ixfr-axfr), or per difference section (ixfr-inc)
+	Seqs       int              `json:"seqs,omitempty"`
+	Cuts       []int            `json:"cuts,omitempty"` // envelope boundaries: indices into the record sequence after which a new envelope starts
+	Sender     string           `json:"sender"`         // out (real Server + Transfer.Out) | scripted
+	Alg        string           `json:"alg,omitempty"`  // TSIG algorithm ("" = no TSIG)
+	ClientKey  bool             `json:"client_key,omitempty"`
+	ServerKey  bool             `json:"server_key,omitempty"`
+	Fudge      int              `json:"fudge,omitempty"`
+	Ops        []common.FrameOp `json:"ops,omitempty"`
+	CutAt      int              `json:"cut_at,omitempty"` // link closes the stream towards the client after this many octets
+	CutRST     bool             `json:"cut_rst,omitempty"`
+	SegMode    int              `json:"segmode,omitempty"`
+	ShortRead  int              `json:"shortread,omitempty"`
+	DelayMs    int              `json:"delay_ms,omitempty"`
+	TimeoutMs  int              `json:"read_timeout_ms"`
+	ConsumerMs int              `json:"consumer_ms,omitempty"` // the application spends this long on every envelope before it takes the next one off the channel
+	BadFirst   bool             `json:"bad_first,omitempty"`   // scripted: the sequence does not start with an SOA
+	Rcode      int              `json:"rcode,omitempty"`       // scripted: envelope RcodeAt carries this RCODE
+	RcodeAt    int              `json:"rcode_at,omitempty"`
+	WrongID    int              `json:"wrong_id_at,omitempty"` // scripted: envelope index+1 that carries another ID (0 = none)
+	Trailing   bool             `json:"trailing,omitempty"`    // scripted: one more envelope after the closing one
 }
 
 const (
@@ -104,6 +105,25 @@ func Gen(seed uint64, tier string) any {
 	sc.ShortRead = core.Pick(r, 0, 40, 90)
 	sc.DelayMs = core.Pick(r, 0, 1, 20)
 	sc.TimeoutMs = core.Pick(r, 2000, 5000, 500)
+	if core.Chance(r, 20) {
+		sc.ConsumerMs = core.Pick(r, 1, sc.TimeoutMs/2, sc.TimeoutMs+100, 3*sc.TimeoutMs)
+	}
+	defer func() {
+		// a slow consumer shifts the instant at which later envelopes are verified;
+		// keep that apart from the fudge-boundary experiments
+		if sc.ConsumerMs > 0 {
+			var ops []common.FrameOp
+			for _, op := range sc.Ops {
+				if op.Kind != "delay" {
+					ops = append(ops, op)
+				}
+			}
+			sc.Ops = ops
+			if sc.Fudge != 0 && sc.Fudge < 300 {
+				sc.Fudge = 300
+			}
+		}
+	}()
 	nenv := len(sc.Cuts) + 1
 	// faults
 	switch x := r.IntN(100); {
@@ -231,6 +251,7 @@ func Shrink(x any) []any {
 	num(func(n *Scenario) *int { return &n.DelayMs })
 	num(func(n *Scenario) *int { return &n.Strategy })
 	num(func(n *Scenario) *int { return &n.CutAt })
+	num(func(n *Scenario) *int { return &n.ConsumerMs })
 	if sc.Sender == "out" {
 		n := cp()
 		n.Sender = "scripted"
@@ -400,6 +421,9 @@ func (c *clientTask) RunEvent(time.Time) {
 		x.items = append(x.items, it)
 		k.EffectLocked("env " + strconv.Itoa(len(it.recs)) + " " + errClass(it.err))
 		k.Unlock()
+		if sc.ConsumerMs > 0 {
+			k.Sleep("consumer.work", time.Duration(sc.ConsumerMs)*time.Millisecond)
+		}
 	}
 	closedNow := x.cliConn.IsClosed()
 	k.Lock()
@@ -717,6 +741,27 @@ func (x *run) judge(start0 time.Time) {
 			if i < len(x.items) {
 				now = uint64(x.items[i].t.Unix())
 			}
+			if sc.ConsumerMs > 0 {
+				// the envelope is verified when the receiver gets round to reading
+				// it: on arrival, or when the consumer has taken the previous one
+				vt := start0
+				if ot := x.relay.OutT["s2c"]; i < len(ot) {
+					vt = ot[i]
+				}
+				if i > 0 && i-1 < len(x.items) && x.items[i-1].t.After(vt) {
+					vt = x.items[i-1].t
+				}
+				now = uint64(vt.Unix())
+				if ts, _, ok := oracle.FindTSIG(f); ok {
+					d := int64(now) - int64(ts.Time)
+					if d < 0 {
+						d = -d
+					}
+					if d >= int64(ts.Fudge)-1 && d <= int64(ts.Fudge)+1 {
+						judgable = false // within a second of the fudge edge, and the instant is only known to a link delay
+					}
+				}
+			}
 			v := oracle.VerifyTSIG(f, secrets(), prior, i > 0, now)
 			if !v.Judgable {
 				judgable = false
@@ -842,6 +887,7 @@ func (x *run) alwaysChecks() bool {
 		}
 	}
 	bound := time.Duration(sc.TimeoutMs)*time.Millisecond + time.Second + time.Duration(10*sc.DelayMs)*time.Millisecond
+	bound += time.Duration((len(x.items)+1)*sc.ConsumerMs) * time.Millisecond // the consumer's own time
 	if !lastArrive.IsZero() && x.closedT.Sub(lastArrive) > bound {
 		res.Fail("T6", "closure-late", "the channel closed %v after the last octet was forwarded to the receiver (read timeout %d ms)", x.closedT.Sub(lastArrive), sc.TimeoutMs)
 		return false
